@@ -336,10 +336,15 @@ def r5(ctx):
     rp = ctx.w.bodies.get("turmoil_fs::Fs::resolve_persisted_path")
     if rp:
         chain = False
+        # `iter().rev().fold(start, |current, op| ..)`: the accumulator parameter of the folding closure is the name found so far
+        folds = {cid for fb in ctx.w.family(rp.id) for bb, t in fb.calls(re.compile(r"Iterator::(fold|try_fold)$|Iterator>::(fold|try_fold)$"))
+                 for cid in closure_args(fb, t)}
         for fb in ctx.w.family(rp.id):
             for bb, t in fb.calls(re.compile(r"PartialEq.*::(eq|ne)$")):
                 for a in t["args"]:
                     o = deref_origin(fb, a)
+                    if fb.id in folds and o["k"] == "place" and not o["p"].get("p") and o["p"]["l"] == 2:
+                        chain = True
                     if o["k"] == "place" and not o["p"].get("p") and not (1 <= o["p"]["l"] <= fb.argc):
                         l = o["p"]["l"]
                         ds = [d for d in fb.defs().get(l, []) if d[1] == "term" or "*" not in (d[2]["p"].get("p") or ())]
